@@ -75,3 +75,169 @@ Example c08_hypotheses_inhabited :
   alookup (lit "ups_db/a/1.version") (crash_state lower_atomic f l 4) = Some (File [lit "x"]) /\
   alookup (lit "ups_db/a/1.version") (crash_state lower_atomic f l 5) = None.
 Proof. vm_compute. repeat split. Qed.
+
+(* ================================================================================================
+   Second layer: the database commands of C06 (Model/Db.v) on this store (Model/CrashDb.v).
+
+   [represents f d]: the store f holds exactly the records of database d, printed, at the paths
+   <stack>/ups_db/<product>/<version>.version and <stack>/ups_db/<product>/<tag>.chain, no temporary
+   file, and every name in d can be a path component.  [op_ok o]: the product, version and tag named on
+   the command line contain no slash and the product does not end in .tmp.  [effects d o = Ok es]: the
+   file effects the command performs (C06).  [crash_fs f es k]: the store after k system calls of the
+   write-temporary-then-rename lowering of es.  [read_db]: a fresh reader (lists the store, parses every
+   version and chain file of the stacks on the path, raises on a record that does not parse).
+   [crash_point f d o es k d'] bundles: represents f d, op_ok o, effects d o = Ok es, and the reader
+   returned d' on the crashed store.  Record contents are abstract (field values, one per line).
+   ================================================================================================ *)
+From Eupsv Require Import Model.Db Model.CrashDb Proofs.DbLib Proofs.Db Proofs.DbInv Proofs.DbCor
+  Proofs.CrashDbLib Proofs.CrashDb Proofs.CrashDbAct Proofs.CrashDbOp Proofs.CrashDbMain Proofs.CrashDbWitness.
+
+(* the database read back from the crashed store is the database after a whole number of file effects *)
+Theorem crash_db_is_effect_prefix f d o es k :
+  represents f d -> op_ok o = true -> effects d o = Ok es ->
+  exists j d', j <= length es /\
+    read_db (map fst d) (crash_fs f es k) = Ok d' /\ db_eq d' (apply (firstn j es) d).
+Proof. exact (crash_point_reads f d o es k). Qed.
+Print Assumptions crash_db_is_effect_prefix.
+
+(* a file-effect prefix reads as an action prefix: what the reader sees after the crash is, for the whole
+   view at once, the view after a whole number of refined actions (Database.undeclare spelled out as
+   unassign each tag, then remove the version block) *)
+Theorem crash_view_is_action_prefix f d o es k d' : crash_point f d o es k d' ->
+  exists acts i, decide false (view d) o = Ok acts /\ i <= length (refine d acts) /\
+    aeq (view d') (aapply_all (firstn i (refine d acts)) (view d)).
+Proof.
+  intro C. destruct (crash_point_view _ _ _ _ _ _ C) as [acts [j [Hd [_ [_ Hv]]]]].
+  destruct (effect_prefix_is_action_prefix d acts j) as [i [Hi K]].
+  exists acts, i. split; [exact Hd|]. split; [exact Hi|]. eapply aeq_trans; eassumption.
+Qed.
+Print Assumptions crash_view_is_action_prefix.
+
+(* every declaration and every tag assignment reads as its value after i or after i+1 of the command's
+   record-level actions, the same i for all of them (i = 0: its value before the command) *)
+Theorem crash_view_old_or_step f d o es k d' : crash_point f d o es k d' ->
+  exists acts i, decide false (view d) o = Ok acts /\ i <= length acts /\
+    same_or (view d') (aapply_all (firstn i acts) (view d)) (aapply_all (firstn (S i) acts) (view d)).
+Proof. exact (crash_between f d o es k d'). Qed.
+Print Assumptions crash_view_old_or_step.
+
+(* a command that comes down to at most one action (assignTag, unassignTag, undeclare or remove of a version
+   however many tags point at it, a declaration that assigns no tag): old or new, literally *)
+Theorem crash_view_old_or_new_single_action f d o es k d' acts : crash_point f d o es k d' ->
+  decide false (view d) o = Ok acts -> length acts <= 1 ->
+  same_or (view d') (view d) (view (apply es d)).
+Proof. exact (crash_single f d o es k d' acts). Qed.
+Print Assumptions crash_view_old_or_new_single_action.
+
+(* every command except declare (undeclare --tag with undeclareVersionAndTag is two actions): old or new *)
+Theorem crash_view_old_or_new_not_declare f d o es k d' : crash_point f d o es k d' -> is_declare o = false ->
+  same_or (view d') (view d) (view (apply es d)).
+Proof. exact (crash_not_declare f d o es k d'). Qed.
+Print Assumptions crash_view_old_or_new_not_declare.
+
+(* declarations: old or new for every command, declare included *)
+Theorem crash_decl_old_or_new f d o es k d' : crash_point f d o es k d' ->
+  forall s n v fl, a_decl (view d') s n v fl = a_decl (view d) s n v fl \/
+                   a_decl (view d') s n v fl = a_decl (view (apply es d)) s n v fl.
+Proof. exact (crash_decl_old_or_new_gen f d o es k d'). Qed.
+Print Assumptions crash_decl_old_or_new.
+
+(* the literal statement for all commands,
+     forall f d o es k d', crash_point f d o es k d' -> same_or (view d') (view d) (view (apply es d)),
+   is false of the model as it is of the code (finding D20): declare a 2 -t current, when current points at
+   a 1, unassigns and then assigns; killed in between, the tag reads as unassigned *)
+Theorem crash_view_old_or_new_refuted :
+  exists f d o es k d', crash_point f d o es k d' /\
+    exists s n t fl, a_tag (view d') s n t fl <> a_tag (view d) s n t fl /\
+                     a_tag (view d') s n t fl <> a_tag (view (apply es d)) s n t fl.
+Proof.
+  exists w_f, w_d, w_move, (op_effects w_d w_move), 1,
+         (read_raw (map fst w_d) (crash_fs w_f (op_effects w_d w_move) 1)).
+  split.
+  - constructor; [apply w_represents|reflexivity|vm_compute; reflexivity|vm_compute; reflexivity].
+  - exists (lit "stack"), (lit "a"), (lit "current"), w_L. split; vm_compute; discriminate.
+Qed.
+Print Assumptions crash_view_old_or_new_refuted.
+
+(* no tag points at an undeclared version at any crash point of any command *)
+Theorem no_dangling_at_every_crash_point f d o es k d' : crash_point f d o es k d' ->
+  no_dangling (view d) -> no_dangling (view d').
+Proof. exact (crash_no_dangling f d o es k d'). Qed.
+Print Assumptions no_dangling_at_every_crash_point.
+
+(* declarations and tags of other products, or of the same product for another flavor, are unchanged *)
+Theorem crash_frame f d o es k d' : crash_point f d o es k d' ->
+  forall s n x fl, (n, fl) <> op_nf o ->
+  a_decl (view d') s n x fl = a_decl (view d) s n x fl /\ a_tag (view d') s n x fl = a_tag (view d) s n x fl.
+Proof. exact (crash_frame_nf f d o es k d'). Qed.
+Print Assumptions crash_frame.
+
+(* every command but declare (whose tag move walks the whole path) works in one stack *)
+Theorem crash_frame_other_stacks f d o es k d' : crash_point f d o es k d' -> is_declare o = false ->
+  exists s0, forall s n x fl, s <> s0 ->
+  a_decl (view d') s n x fl = a_decl (view d) s n x fl /\ a_tag (view d') s n x fl = a_tag (view d) s n x fl.
+Proof. exact (crash_frame_stack f d o es k d'). Qed.
+Print Assumptions crash_frame_other_stacks.
+
+(* the reader never raises on a crash state of the repaired protocol: no partial record is visible *)
+Theorem reader_total f d o es k :
+  represents f d -> op_ok o = true -> effects d o = Ok es ->
+  exists d', read_db (map fst d) (crash_fs f es k) = Ok d'.
+Proof.
+  intros R Hok He. destruct (crash_point_reads f d o es k R Hok He) as [j [d' [_ [H _]]]]. exists d'. exact H.
+Qed.
+Print Assumptions reader_total.
+
+(* under the pinned in-place protocol it does raise: a second flavor joins the version file of a 1, the
+   process dies after the first line of the rewritten file *)
+Theorem reader_refuted_pinned :
+  exists f d o es k, represents f d /\ op_ok o = true /\ effects d o = Ok es /\
+    read_db (map fst d) (crash_fs_inplace f es k) = Err Crash.
+Proof.
+  exists w_f, w_d, w_join, (op_effects w_d w_join), 2.
+  split; [apply w_represents|]. split; [reflexivity|]. split; vm_compute; reflexivity.
+Qed.
+Print Assumptions reader_refuted_pinned.
+
+(* and one system call earlier (right after the truncating open) the reader succeeds but the declaration of the
+   other flavor, present before and after the command, is gone *)
+Theorem inplace_loses_declaration_pinned :
+  exists f d o es k d', represents f d /\ op_ok o = true /\ effects d o = Ok es /\
+    read_db (map fst d) (crash_fs_inplace f es k) = Ok d' /\
+    exists s n v fl, a_decl (view d) s n v fl <> None /\ a_decl (view (apply es d)) s n v fl <> None /\
+                     a_decl (view d') s n v fl = None.
+Proof.
+  exists w_f, w_d, w_join, (op_effects w_d w_join), 1,
+         (read_raw (map fst w_d) (crash_fs_inplace w_f (op_effects w_d w_join) 1)).
+  split; [apply w_represents|]. split; [reflexivity|]. split; [vm_compute; reflexivity|].
+  split; [vm_compute; reflexivity|].
+  exists (lit "stack"), (lit "a"), (lit "1"), w_L.
+  split; [vm_compute; discriminate|]. split; [vm_compute; discriminate|]. vm_compute. reflexivity.
+Qed.
+Print Assumptions inplace_loses_declaration_pinned.
+
+(* non-vacuity: every database reached from the empty one by commands with path-safe names is represented
+   by the store that the images of their file effects build *)
+Theorem reachable_is_represented path ops :
+  forallb seg_ok path = true -> forallb op_ok ops = true ->
+  represents (store_of path ops) (run false (empty_db path) ops).
+Proof. exact (Proofs.CrashDbWitness.reachable_is_represented path ops). Qed.
+Print Assumptions reachable_is_represented.
+
+(* the hypotheses hold of a non-trivial state: after declare a 1 -t current; declare a 2, the command
+   undeclare a 1 (three file effects: remove current.chain, remove 1.version, rmdir) killed after the first
+   one: the tag is gone, the declaration still there, nothing dangles *)
+Example c08_crash_point_inhabited :
+  let es := op_effects w_d w_undeclare in
+  let d' := read_raw (map fst w_d) (crash_fs w_f es 1) in
+  crash_point w_f w_d w_undeclare es 1 d' /\ no_dangling (view w_d) /\ length es = 3 /\
+  a_tag (view w_d) (lit "stack") (lit "a") (lit "current") w_L = Some (lit "1") /\
+  a_tag (view d') (lit "stack") (lit "a") (lit "current") w_L = None /\
+  a_decl (view d') (lit "stack") (lit "a") (lit "1") w_L <> None /\
+  a_decl (view (apply es w_d)) (lit "stack") (lit "a") (lit "1") w_L = None.
+Proof.
+  cbv zeta. split.
+  - constructor; [apply w_represents|reflexivity|vm_compute; reflexivity|vm_compute; reflexivity].
+  - split; [apply w_no_dangling|]. split; [vm_compute; reflexivity|]. split; [vm_compute; reflexivity|].
+    split; [vm_compute; reflexivity|]. split; [vm_compute; discriminate|]. vm_compute. reflexivity.
+Qed.
